@@ -13,12 +13,9 @@
    RowsSortedByKernel and the kernel's rows are proved sorted (csr_csr_rows_strictly_increasing).
    from_scipy_sparse of a SciPy matrix with unsorted rows (found independently by this check and
    C05) was repaired too (fix c3f2e26).
-   Still false on the code as it stands (found by this check's run-time judge, kept reported; the
-   producers are not modelled here, their sites are Unjustified in the table): GCXS getitem with
-   None and an integer (malformed 2-d GCXS without indptr).  einsum storing cancelled sums (found by
-   this check) was repaired by fix a5059be (prune=True at the _einsum_single site).  The
-   csc @ ndarray sparse-returning kernel (unsorted rows, miscounted indptr; found by this check)
-   was repaired by fix 03cd171. *)
+   All findings of this check so far (from_scipy_sparse with unsorted rows, the csc @ ndarray sparse kernel,
+   einsum storing cancelled sums, GCXS getitem with None and an integer) have been repaired in the
+   repository; a recurrence is a plain violation. *)
 From Coq Require Import String ZArith List Bool Sorting.Sorted.
 From Verif Require Import Shape COO COOP GCXS Ctor S_ctor_sites CtorP Prog ProgP.
 Import ListNotations.
@@ -148,21 +145,13 @@ Theorem constructor_defaults_promise_nothing :
 Proof. vm_compute. split; reflexivity. Qed.
 Print Assumptions constructor_defaults_promise_nothing.
 
-(* Full statement (no site's promise is known to be false):
-     forallb (fun e => match j_just e with Refuted _ => false | _ => true end) site_justification = true.
-   It is FALSE of the code as it stands.  The run-time judge of this check found concrete inputs on
-   which one GCXS constructor site stores malformed arrays (replay under evidence/replays):
-     _compressed/indexing.py:getitem #0 — an integer index together with None on a 2-d operand
-       gives a 2-d GCXS with indptr = None (clause gcxs_getitem_newaxis_with_int_malformed).
-   That kernel is not modelled in Coq: the refutation is the campaign's witness.  (The sites
-   _common.py:_dot #2/#3, refuted earlier by this check, were repaired by fix 03cd171 and are now
-   justified, see csc_ndarray_rows_strictly_increasing.)  The table records exactly this one: *)
-Theorem refuted_sites_are :
-  map (fun e => (j_file e, j_func e, j_ord e))
-      (filter (fun e => match j_just e with Refuted _ => true | _ => false end) site_justification)
-  = [("_compressed/indexing.py"%string, "getitem"%string, 0)].
+(* no site's promise is known to be false (the sites this check refuted earlier — csr @ csr, from_scipy_sparse,
+   csc @ ndarray, GCXS getitem with None and an integer — were all repaired, the last one by the GCXS
+   constructor's new indptr-length check) *)
+Theorem no_refuted_site :
+  forallb (fun e => match j_just e with Refuted _ => false | _ => true end) site_justification = true.
 Proof. vm_compute. reflexivity. Qed.
-Print Assumptions refuted_sites_are.
+Print Assumptions no_refuted_site.
 
 (* from_scipy_sparse stores the arrays of the (canonicalised) SciPy matrix: well formed when its
    rows are sorted and duplicate-free, which _canonical_scipy asks SciPy to establish *)
